@@ -466,6 +466,24 @@ func TestC16(t *testing.T) {
 				srv.api.Pub.DeleteTopic(c, &pubsubpb.DeleteTopicRequest{Topic: d})
 				stream(c, sub, func() { exhaust(c, sub, 3) })
 			}},
+			{"dead-letter-onto-filtered-subscriptions-with-odd-attribute-values", func(c context.Context, t, d, sub string) {
+				// the forward evaluates the filters of the dead-letter topic's
+				// subscriptions - in the stream's fetcher and in the sweep, outside any
+				// per-request recovery - on messages the source accepted without a filter
+				for k, f := range []string{`hasPrefix(attributes.k, "a")`, `attributes.k = "a"`, `attributes:k`, `NOT hasPrefix(attributes.k, "")`, `attributes.k != ""`, `hasPrefix(attributes."", "a") OR -attributes:""`} {
+					mkSub(c, &pubsubpb.Subscription{Name: fmt.Sprintf("%s-dl%d", sub, k), Topic: d, Filter: f})
+				}
+				mkSub(c, &pubsubpb.Subscription{Name: sub, Topic: t, RetryPolicy: fast, DeadLetterPolicy: &pubsubpb.DeadLetterPolicy{DeadLetterTopic: d, MaxDeliveryAttempts: 5}})
+				req := &pubsubpb.PublishRequest{Topic: t}
+				for k, a := range []map[string]string{{"k": ""}, {"k": "a"}, nil, {"": ""}, {"": "a", "k": "\x00"}, {"K": "a"}} {
+					req.Messages = append(req.Messages, &pubsubpb.PubsubMessage{Data: []byte(fmt.Sprintf(`{"q":%d}`, k)), Attributes: a})
+				}
+				srv.api.Pub.Publish(c, req)
+				exhaust(c, sub, 5)
+				stream(c, sub, nil)
+				exhaust(c, sub, 3)
+				stream(c, sub+"-dl0", nil)
+			}},
 			{"dead-letter-to-own-topic", func(c context.Context, t, d, sub string) {
 				mkSub(c, &pubsubpb.Subscription{Name: sub, Topic: t, RetryPolicy: fast, DeadLetterPolicy: &pubsubpb.DeadLetterPolicy{DeadLetterTopic: t, MaxDeliveryAttempts: 5}})
 				pub(c, t, 2)
